@@ -135,7 +135,7 @@ CHECKS = {
               "(DW/Model/GenLoadV1.lean: layered statements, conditions that bind, reads that may be unbound by design): theorem "
               "C15_genloadv1_well_scoped for every class under Python's scoping rule, given that each value expression reads only v1 and "
               "outside names (an input read off the generated line by an evaluation-order-aware ast walk; premises evaluated on every "
-              "generated function), C15_genloadv1_ctor_vars_local; tie: body byte for byte, declared names vs ast, bound names vs the "
+              "generated function; sound Boolean form C15_genloadv1_premises_sound), C15_genloadv1_ctor_vars_local, C15_genloadv1_field_vars_fresh; tie: body byte for byte, declared names vs ast, bound names vs the "
               "compiler's, run on documents; the value expressions themselves (type-directed, recursive) are carried by the oracle. The renaming oracle "
               "is also run over histories of use (harness/props/c15_hist.py): nested classes with their own Meta loaded / dumped on "
               "their own before and after the root, x Meta.recursive = False, x one __name__ for several definitions and names of the "
